@@ -159,8 +159,10 @@ static void poll(int k) {
     mon("C10").eval(); mon("C11").eval(); mon("C08").eval();
     // eligible: subscribed pending entries that could be sent now
     std::set<int> eligN, eligI, unsubN, unsubI;
-    for (int ch : c.pendN) (c.cccd[decl::chars[ch].cccd_ord] & 1 ? eligN : unsubN).insert(ch);
-    for (int ch : c.pendI) (c.cccd[decl::chars[ch].cccd_ord] & 2 ? eligI : unsubI).insert(ch);
+    // a value that requires encryption can not be sent on an unencrypted link: such an entry is treated like one of an
+    // unsubscribed client (it may be dropped silently)
+    for (int ch : c.pendN) ((c.cccd[decl::chars[ch].cccd_ord] & 1) && (!decl::chars[ch].enc || c.encrypted) ? eligN : unsubN).insert(ch);
+    for (int ch : c.pendI) ((c.cccd[decl::chars[ch].cccd_ord] & 2) && (!decl::chars[ch].enc || c.encrypted) ? eligI : unsubI).insert(ch);
     if (pdu.empty()) {
         mon("C10").cls("poll_empty");
         // an entry of an unsubscribed client may have been consumed silently: all of them become uncertain
